@@ -282,22 +282,29 @@ class Ctx:
         shutil.rmtree(self.scratch, ignore_errors=True)
 
     # ---- building --------------------------------------------------------------------
-    def build_harness(self):
-        if self.vh:
+    def build_harness(self, race=False):
+        if race:
+            if getattr(self, "vh_race", None):
+                return self.vh_race
+        elif self.vh:
             return self.vh
-        out = self.path("bin", "vh")
+        out = self.path("bin", "vh_race" if race else "vh")
         # build from a scratch copy so that nothing under /verif is written at run time
         hdir = os.path.join(self.scratch, "harness")
-        shutil.copytree(HARNESS, hdir)
+        if not os.path.exists(hdir):
+            shutil.copytree(HARNESS, hdir)
         shutil.copy(os.path.join(REPO, "go.sum"), os.path.join(hdir, "go.sum"))
         t = time.time()
-        r = subprocess.run(["go", "build", "-tags", "verif", "-o", out, "./cmd/vh"], cwd=hdir,
+        r = subprocess.run(["go", "build", "-tags", "verif"] + (["-race"] if race else []) + ["-o", out, "./cmd/vh"], cwd=hdir,
                            env=goenv(), capture_output=True, text=True)
         if r.returncode != 0:
             # a /repo that does not compile with hooks on: the tree is broken, not the property
             raise Infra("harness build failed:\n" + r.stdout + r.stderr)
-        log("built harness in %.1fs" % (time.time() - t))
-        self.vh = out
+        log("built harness%s in %.1fs" % (" (race)" if race else "", time.time() - t))
+        if race:
+            self.vh_race = out
+        else:
+            self.vh = out
         return out
 
     def build_repo_bin(self, pkg, race=False, tags="verif"):
@@ -319,8 +326,8 @@ class Ctx:
         self.bins[key] = out
         return out
 
-    def run_vh(self, args, timeout=1800, env=None, stdin=None, check=True):
-        vh = self.build_harness()
+    def run_vh(self, args, timeout=1800, env=None, stdin=None, check=True, race=False):
+        vh = self.build_harness(race=race)
         t = time.time()
         try:
             r = subprocess.run([vh] + args, capture_output=True, text=True, timeout=timeout,
